@@ -72,6 +72,7 @@ def c11_extra(prop, tier, rng, result):
     recs = []
     kinds = {}
     checks = []
+    aborted = False
     for im in range(nimg):
         sess.new_case()
         delta = (im % 3 == 1) or rng.random() < 0.2      # at least one delta-mode image per run
@@ -135,7 +136,7 @@ def c11_extra(prop, tier, rng, result):
                     bb[arg[0]] ^= arg[1]
                     f2[nm] = bytes(bb)
                 elif kind == 'multi':
-                    f2[nm] = b[:max(0, len(b) - 1 - rng.randrange(3))] if arg == 'trunc' else bytes(rng.randrange(256) for _ in range(rng.randrange(1, 9)))
+                    f2[nm] = b[:max(0, len(b) - 1 - rng.randrange(3))] if arg == 'trunc' else bytes([0] + [rng.randrange(256) for _ in range(rng.randrange(0, 8))])   # first prefix byte 0: no 2 GB allocations
                 if nm in MANIFESTS:
                     key = MANIFESTS[nm]
                     if nm not in f2:
@@ -143,10 +144,19 @@ def c11_extra(prop, tier, rng, result):
                     else:
                         m2[key] = sess.send('manifest %s %s' % (key, f2[nm].hex() if f2[nm] else '-')).split('=', 1)[1]
             conc = rng.choice((1, 2, 3, 16))
-            out = sess.send('loadimg conc=%d %s' % (conc, image_tokens(f2, m2)))
+            try:
+                out = sess.send('loadimg conc=%d %s' % (conc, image_tokens(f2, m2)))
+            except C.SessionAbort as e:
+                pre = [x for x in sess.lines[:-1] if not x.startswith(('loadimg', 'manifest'))]
+                viol.append({'engine': 'mvcc', 'kind': 'c11-hang', 'fault': [kind, list(names), str(arg)], 'script': pre + [sess.lines[-1]],
+                             'diff': {'line': len(pre), 'op': 'loadimg (%s %s %s)' % (kind, ','.join(names), arg), 'impl': str(e)[:200], 'model': 'err || ' + exact[:200]}})
+                aborted = True
+                break
             cov['evaluations'] += 1
             kinds[kind] = kinds.get(kind, 0) + 1
             checks.append((im, len(sess.lines) - 1, exact, kind, list(names), arg))
+        if aborted:
+            break
         recs.append((list(sess.lines), list(sess.outs)))
     sess.close()
     # the tie: the model's load on the same damaged images
